@@ -2577,7 +2577,7 @@ fn gen_case(rng: &mut Rng, tier: Tier, idx: usize) -> Vec<String> {
     }
     let n = rng.range(1, 4) as usize;
     let seed = rng.below(1 << 30);
-    let mut now: u64 = 1_000_000 + rng.below(500_000);
+    let mut now: u64 = rng.time_base(1_000_000, 500_000);
     let mut ops = vec![format!("init {n} {seed} {now}")];
     let id = id_from_seed(seed, 0);
     // the receiver answers REG1 with a REG2 carrying the full group id (first 128 bytes ours)
@@ -4070,7 +4070,7 @@ fn gen_reload(rng: &mut Rng, tier: Tier) -> Vec<String> {
 fn gen_long_rtt_history(rng: &mut Rng) -> Vec<String> {
     let n = rng.range(1, 2) as usize;
     let seed = rng.below(1 << 30);
-    let mut now: u64 = 1_000_000 + rng.below(500_000);
+    let mut now: u64 = rng.time_base(1_000_000, 500_000);
     let mut ops = vec![format!("init {n} {seed} {now}")];
     ops.push(format!(
         "cfg classic={} quality=1 stall={} minif=32 ceil=3000 cto=5000",
@@ -4150,7 +4150,7 @@ fn gen_long_rtt_history(rng: &mut Rng) -> Vec<String> {
 fn gen_never_connects(rng: &mut Rng) -> Vec<String> {
     let n = rng.range(1, 3) as usize;
     let seed = rng.below(1 << 30);
-    let mut now: u64 = 1_000_000 + rng.below(500_000);
+    let mut now: u64 = rng.time_base(1_000_000, 500_000);
     let mut ops = vec![format!("init {n} {seed} {now}")];
     let hexs = |b: &[u8]| to_hex(b);
     if rng.chance(1, 2) {
@@ -4201,7 +4201,7 @@ fn gen_never_connects(rng: &mut Rng) -> Vec<String> {
 fn gen_idle_session_timeout(rng: &mut Rng) -> Vec<String> {
     let n = rng.range(2, 3) as usize;
     let seed = rng.below(1 << 30);
-    let mut now: u64 = 1_000_000 + rng.below(500_000);
+    let mut now: u64 = rng.time_base(1_000_000, 500_000);
     let mut ops = vec![format!("init {n} {seed} {now}")];
     let cto0 = *rng.pick(&[30_000u64, 12_000, 60_000, 2_000, 1_000, 8_000]);
     let classic = rng.below(2);
@@ -4243,7 +4243,7 @@ fn gen_idle_session_timeout(rng: &mut Rng) -> Vec<String> {
 fn gen_dead_socket(rng: &mut Rng) -> Vec<String> {
     let n = rng.range(2, 4) as usize;
     let seed = rng.below(1 << 30);
-    let mut now: u64 = 1_000_000 + rng.below(500_000);
+    let mut now: u64 = rng.time_base(1_000_000, 500_000);
     let mut ops = vec![format!("init {n} {seed} {now}")];
     ops.push(format!("cfg classic={} quality=1 stall=1 minif=32 ceil=3000 cto=5000", rng.below(2)));
     let id = id_from_seed(seed, 0);
